@@ -25,7 +25,7 @@ def ieval(x, env):
     if k == 'lit':
         v = x.get('v')
         return int(v)
-    if k in ('ref', 'local', 'paramof', 'mem'):
+    if k in ('ref', 'local', 'paramof', 'mem', 'bindof'):
         n = x.get('n')
         if n in env:
             return env[n]
